@@ -83,6 +83,11 @@ class DriveRig:
         for attr in ("TIMEOUT_RESET_FAULT", "TIMEOUT_SWITCH_OP_MODE", "TIMEOUT_SWITCH_STATE_FINAL", "TIMEOUT_SWITCH_STATE_SINGLE", "TIMEOUT_CHECK_TPDO"):
             setattr(self.node, attr, 8.0 if attr != "TIMEOUT_SWITCH_STATE_FINAL" else 20.0)
         if not ticked:
+            # inline delivery: the drive has reacted before the library looks, so a time-out can only mean that the
+            # commanded transition did not happen (no wall-clock race); keep the waits short
+            self.node.TIMEOUT_SWITCH_STATE_SINGLE = 0.05
+            self.node.TIMEOUT_SWITCH_STATE_FINAL = 0.5
+            self.node.TIMEOUT_RESET_FAULT = 0.05
             # event-driven, inline delivery: every statusword change has been received before the library looks;
             # waiting for a *further* TPDO (the library infers a period from reception intervals) can only time out
             self.node.TIMEOUT_CHECK_TPDO = 0.02
@@ -175,7 +180,15 @@ def run_transitions(ctx, desc):
                 if transport.startswith("pdo"):
                     rig.send_tpdo()                       # the master knows the current statusword
                     if ticked:
-                        time.sleep(0.01)
+                        # the master must have received a statusword before the call (until then it reads 0)
+                        for _ in range(5000):
+                            if rig.node.tpdo[1].timestamp is not None:
+                                break
+                            time.sleep(0.001)
+                        else:
+                            ctx.inconc("first TPDO never arrived", {"transport": transport})
+                            rig.close()
+                            continue
                 case = {"workload": "transitions", "transport": transport, "start": start, "target": target, "auto_delay": delay,
                         "extra_bits": extra, "dont_care": dont_care}
                 ctx.case(("transition", start, target, delay, transport), nontrivial=start != target)
